@@ -238,7 +238,7 @@ func C13(r *eng.Run) {
 	if !CodecSanity(r) {
 		return
 	}
-	shapes := Shapes(r.Thorough())
+	shapes := Shapes(true)
 	var coefs []*big.Int
 	for _, c := range shapes {
 		for _, z := range []int{0, 1, 2, 5, 18, 19, 20} {
